@@ -11,6 +11,7 @@ pub mod glue_gen;
 pub mod ir;
 pub mod judge;
 pub mod oracles;
+pub mod pipe;
 pub mod runner;
 pub mod tape;
 pub mod transport;
@@ -36,6 +37,8 @@ fn engine_by_name(name: &str) -> Option<Box<dyn Engine>> {
         "wire-c18" => Box::new(WireEngine { profile: Profile::C18, enumerate: false }),
         "wire-c18-enum" => Box::new(WireEngine { profile: Profile::C18, enumerate: true }),
         "wire-c19" => Box::new(WireEngine { profile: Profile::C19, enumerate: false }),
+        "pipe-c01" => Box::new(pipe::PipeEngine { profile: pipe::PipeProfile::C01 }),
+        "pipe-c05" => Box::new(pipe::PipeEngine { profile: pipe::PipeProfile::C05 }),
         _ => return None,
     };
     Some(e)
@@ -68,6 +71,8 @@ fn main() {
             let workers = env_u64("VERIF_WORKERS", 16) as usize;
             // (engine, runs quick, runs thorough)
             let plan: Vec<(&str, u64, u64)> = match prop.as_str() {
+                "C01" => vec![("pipe-c01", 100_000, 5_000_000)],
+                "C05" => vec![("pipe-c05", 100_000, 5_000_000)],
                 "C04" => vec![("wire-c04", 150_000, 6_000_000)],
                 "C06" => vec![("wire-c06", 150_000, 4_000_000), ("wire-c06-enum", 2_000, 60_000)],
                 "C07" => vec![("wire-c07", 60_000, 2_000_000)],
